@@ -16,7 +16,8 @@ class C02(CoreProp):
     id = "C02"
     prop_module = "Props.C02"
     prop_file = "Props/C02.v"
-    coq_targets = ["Props/C02.vo", "Run/Judge_Core.vo", "Props/Tables.vo"]
+    coq_targets = ["Props/C02.vo", "Props/C02Fuel.vo", "Run/Judge_Core.vo", "Props/Tables.vo"]
+    extra_props = [("Props/C02Fuel.v", "Props.C02Fuel")]
     sizes = {"quick": 320, "thorough": 8000}
     shard = 12
     design_ref = "DESIGN.md section 6/C02"
